@@ -287,7 +287,7 @@ def drive(ctx, fl, e, vals, acts, weights, instances=None):
 
 def run(ctx):
     fl = import_library()
-    maxn = ctx.scale(3, 4)
+    maxn = ctx.scale(3, 5)
     ctx.rule = (
         f"exhaustive: rule blocks of 1..{maxn} rules, degrees over the alphabet {{0, 0.25, 0.5, 1}} (ties and zeros arise), every activation method "
         "with n = 0..rules+1, thresholds {0, 0.25, 0.3, 1} (on and off the degrees), all 6 comparators, one disabled or unloaded rule in "
